@@ -32,7 +32,7 @@ class Inst:
         return k
 
 
-PARAM = {"V": "VP p%s", "M": "MP p%s", "S": "S %s", "LL": "long long %s", "B": "bool %s",
+PARAM = {"BA": "const BARR* %s", "LL8": "long long %s", "V": "VP p%s", "M": "MP p%s", "S": "S %s", "LL": "long long %s", "B": "bool %s",
          "U32": "std::uint32_t %s", "CP": "const S* %s", "P": "S* %s", "VI": "IVP p%s",
          "V2": "VP2 p%s", "M2": "MP2 p%s", "I32": "std::int32_t %s", "I64": "std::int64_t %s"}
 LOCAL = {"V": "V %s{p%s};", "M": "M %s{p%s};", "VI": "IV %s{p%s};", "V2": "V2 %s{p%s};",
@@ -57,6 +57,7 @@ def header(vt, extra=()):
     h = ["#include <avel/Avel.hpp>",
          "typedef avel::%s V; typedef V::mask M; typedef V::scalar S; typedef V::primitive VP; "
          "typedef M::primitive MP;" % vt.name,
+         "typedef std::array<bool, V::width> BARR;",
          "typedef std::make_unsigned<std::conditional<std::is_integral<S>::value, S, int>::type>::type US;"]
     h += list(extra)
     return h
@@ -165,7 +166,131 @@ def fam_floatarith(vt, cfg):
     return I
 
 
+# ---------------------------------------------------------------------------
+# C03 masks
+
+MM = [("M", "m"), ("M", "n")]
+
+
+def bits_and(bs):
+    return T.icmp("eq", T.concat(list(bs)), T.const(len(bs), -1))
+
+
+def bits_or(bs):
+    return T.icmp("ne", T.concat(list(bs)), T.const(len(bs), 0))
+
+
+def bits_none(bs):
+    return T.icmp("eq", T.concat(list(bs)), T.const(len(bs), 0))
+
+
+def fam_mask(vt, cfg):
+    I = []
+    n = vt.n
+    for nm, sym, f in (("mand", "&", T.and_), ("mor", "|", T.or_), ("mxor", "^", T.xor),
+                       ("mland", "&&", T.and_), ("mlor", "||", T.or_)):
+        e = lambda c, f=f: c.pack_mask([f(x, y) for x, y in zip(c.mbits("m"), c.mbits("n"))])
+        I.append(Inst(nm, MM, "M", "m %s n" % sym, e))
+        if len(sym) == 1:
+            I.append(Inst(nm + "_assign", MM, "M", "m", e, pre="m %s= n;" % sym))
+    I.append(Inst("mnot", [("M", "m")], "M", "!m", lambda c: c.pack_mask([T.not_(x) for x in c.mbits("m")])))
+    I.append(Inst("meq", MM, "B", "m == n",
+                  lambda c: T.icmp("eq", T.concat(c.mbits("m")), T.concat(c.mbits("n")))))
+    I.append(Inst("mne", MM, "B", "m != n",
+                  lambda c: T.icmp("ne", T.concat(c.mbits("m")), T.concat(c.mbits("n")))))
+    I.append(Inst("mcount", [("M", "m")], "U32", "avel::count(m)",
+                  lambda c: T.popsum(32, [(b, 1) for b in c.mbits("m")])))
+    I.append(Inst("many", [("M", "m")], "B", "avel::any(m)", lambda c: bits_or(c.mbits("m"))))
+    I.append(Inst("mall", [("M", "m")], "B", "avel::all(m)", lambda c: bits_and(c.mbits("m"))))
+    I.append(Inst("mnone", [("M", "m")], "B", "avel::none(m)",
+                  lambda c: bits_none(c.mbits("m"))))
+    for i in range(n):
+        I.append(Inst("mextract", [("M", "m")], "B", "avel::extract<%d>(m)" % i,
+                      lambda c, i=i: c.mbits("m")[i], param=i))
+        I.append(Inst("minsert", [("M", "m"), ("B", "b")], "M", "avel::insert<%d>(m, b)" % i,
+                      lambda c, i=i: c.pack_mask([c.args["b"] if j == i else x
+                                                  for j, x in enumerate(c.mbits("m"))]), param=i))
+    I.append(Inst("mfrombool", [("B", "b")], "M", "M{b}", lambda c: c.pack_mask([c.args["b"]] * c.vt.n)))
+    I.append(Inst("massignbool", [("M", "m"), ("B", "b")], "M", "m", lambda c: c.pack_mask([c.args["b"]] * c.vt.n),
+                  pre="m = b;"))
+    I.append(Inst("mfromarray", [("BA", "arr")], "M", "M{*arr}",
+                  lambda c: c.pack_mask([T.mk("mem", 1, c.args["arr"], i, 0) for i in range(c.vt.n)]), pure=False))
+    # mask <-> vector
+    if vt.is_float:
+        one = 0x3F800000 if vt.eb == 32 else 0x3FF0000000000000
+        I.append(Inst("vfrommask", [("M", "m")], "V", "V{m}",
+                      lambda c: c.pack([T.select(b, T.const(c.vt.eb, one), T.const(c.vt.eb, 0)) for b in c.mbits("m")])))
+        I.append(Inst("masktovec_cast", [("V", "a")], "M", "static_cast<M>(a)",
+                      lambda c: c.pack_mask([T.fcmp("une", x, T.const(c.vt.eb, 0)) for x in c.lanes("a")])))
+    else:
+        I.append(Inst("vfrommask", [("M", "m")], "V", "V{m}",
+                      lambda c: c.pack([T.zext(b, c.vt.eb) for b in c.mbits("m")])))
+        I.append(Inst("masktovec_cast", [("V", "a")], "M", "static_cast<M>(a)",
+                      lambda c: c.pack_mask([T.icmp("ne", x, T.const(c.vt.eb, 0)) for x in c.lanes("a")])))
+    if vt.is_int:
+        I.append(Inst("set_bits", [("M", "m")], "V", "avel::set_bits(m)",
+                      lambda c: c.pack([T.rep(c.vt.eb, b) for b in c.mbits("m")])))
+    return I
+
+
+# ---------------------------------------------------------------------------
+# C04 bitwise, shifts, rotations
+
+def amt_arg(c, name):
+    """scalar shift amount argument (long long) under the precondition
+    0 <= s <= 255 (a superset of the documented domain [0, bits])"""
+    return T.arg(c.argidx[name], 0, 8)
+
+
+def sh(kind, x, amt):
+    return T.shift(kind, x, amt, True)
+
+
+def rot(kind, x, amt):
+    """rotate left/right by amt modulo width"""
+    return T.fsh("fshl" if kind == "l" else "fshr", x, x, amt)
+
+
+def fam_bitwise(vt, cfg):
+    if not vt.is_int:
+        return []
+    I = []
+    B = vt.eb
+    for nm, sym, f in (("and", "&", T.and_), ("or", "|", T.or_), ("xor", "^", T.xor)):
+        I.append(Inst(nm, VV, "V", "a %s b" % sym, lanewise2(lambda c, x, y, f=f: f(x, y))))
+        I.append(Inst(nm + "_assign", VV, "V", "a", lanewise2(lambda c, x, y, f=f: f(x, y)), pre="a %s= b;" % sym))
+    I.append(Inst("not", [("V", "a")], "V", "~a", lanewise1(lambda c, x: T.not_(x))))
+    rk = "ashr" if vt.signed else "lshr"
+    VS = [("V", "a"), ("LL8", "s")]
+    I.append(Inst("shl_s", VS, "V", "a << s", lambda c: c.pack([sh("shl", x, c.args["s"]) for x in c.lanes("a")])))
+    I.append(Inst("shl_s_assign", VS, "V", "a", lambda c: c.pack([sh("shl", x, c.args["s"]) for x in c.lanes("a")]), pre="a <<= s;"))
+    I.append(Inst("shr_s", VS, "V", "a >> s", lambda c: c.pack([sh(rk, x, c.args["s"]) for x in c.lanes("a")])))
+    I.append(Inst("shr_s_assign", VS, "V", "a", lambda c: c.pack([sh(rk, x, c.args["s"]) for x in c.lanes("a")]), pre="a >>= s;"))
+    I.append(Inst("shl_v", VV, "V", "a << b", lanewise2(lambda c, x, y: sh("shl", x, y)), note="amounts in [0,bits]"))
+    I.append(Inst("shl_v_assign", VV, "V", "a", lanewise2(lambda c, x, y: sh("shl", x, y)), pre="a <<= b;"))
+    I.append(Inst("shr_v", VV, "V", "a >> b", lanewise2(lambda c, x, y: sh(rk, x, y))))
+    I.append(Inst("shr_v_assign", VV, "V", "a", lanewise2(lambda c, x, y: sh(rk, x, y)), pre="a >>= b;"))
+    for S in range(0, B + 1):
+        I.append(Inst("bit_shift_left", [("V", "a")], "V", "avel::bit_shift_left<%d>(a)" % S,
+                      lanewise1(lambda c, x, S=S: T.shl_c(x, S)), param=S))
+        I.append(Inst("bit_shift_right", [("V", "a")], "V", "avel::bit_shift_right<%d>(a)" % S,
+                      lanewise1(lambda c, x, S=S: (T.ashr_c if c.vt.signed else T.lshr_c)(x, S)), param=S))
+    for S in list(range(0, B + 1)) + [B + 1, B + B // 2, 2 * B - 1, 2 * B, 2 * B + 3]:
+        I.append(Inst("rotl_c", [("V", "a")], "V", "avel::rotl<%d>(a)" % S,
+                      lanewise1(lambda c, x, S=S: T.rotl_c(x, S)), param=S))
+        I.append(Inst("rotr_c", [("V", "a")], "V", "avel::rotr<%d>(a)" % S,
+                      lanewise1(lambda c, x, S=S: T.rotl_c(x, (-S) % c.vt.eb)), param=S))
+    VSL = [("V", "a"), ("LL", "s")]
+    I.append(Inst("rotl_s", VSL, "V", "avel::rotl(a, s)", lambda c: c.pack([rot("l", x, c.args["s"]) for x in c.lanes("a")])))
+    I.append(Inst("rotr_s", VSL, "V", "avel::rotr(a, s)", lambda c: c.pack([rot("r", x, c.args["s"]) for x in c.lanes("a")])))
+    I.append(Inst("rotl_v", VV, "V", "avel::rotl(a, b)", lanewise2(lambda c, x, y: rot("l", x, y))))
+    I.append(Inst("rotr_v", VV, "V", "avel::rotr(a, b)", lanewise2(lambda c, x, y: rot("r", x, y))))
+    return I
+
+
 FAMILIES = {
+    "mask": fam_mask,
+    "bitwise": fam_bitwise,
     "intarith": fam_intarith,
     "compare": fam_compare,
     "floatarith": fam_floatarith,
